@@ -324,7 +324,11 @@ fn canon_result(o: &Outcome) -> String {
         CompileResult::Ok(s) => format!("ok:{}:{}:{}", s.client_field_count, s.client_pointer_count, s.entrypoint_count),
         CompileResult::Panic(m) => format!("panic:{m}"),
         CompileResult::Diagnostics(ds) => {
-            let mut v: Vec<String> = ds.iter().map(|d| format!("{}|{}|{:?}", d.kind, d.message, d.location)).collect();
+            // Diagnostics are compared as the multiset of (kind, message).  The location is left out:
+            // when two files hold the same declaration, which of them a `multiple-definitions` or a
+            // per-declaration diagnostic points at follows the iteration order of the `HashMap` of iso
+            // literal sources (random per state), in batch mode as well.
+            let mut v: Vec<String> = ds.iter().map(|d| format!("{}|{}", d.kind, d.message)).collect();
             v.sort();
             format!("diag:{}", v.join("\n"))
         }
